@@ -33,7 +33,6 @@ def Env.set (env : Env) (x : Bytes) (v : GoVal) : Env :=
 
 def liftL : GoVal.LRes → Res Cause GoVal
   | .val v => .ok v
-  | .panic w => .panic w
   | .unmodelled w => .unmodelled w
 
 mutual
